@@ -162,6 +162,52 @@ let show_password_wl (ts : (n list * n) list) ent consumed =
     (hex_of_bytes (List.concat (List.map fst ts))) (join0 atoms) (join0 seps) (show_wl_entropy ent) consumed
     (show_roundtrip ts)
 
+
+(* ---- the two shipped lists, as the MODEL's new_word_list constructs them; computed once and cached on disk
+   (key: content of the list file and this executable), because the model's normalisation is quadratic ---- *)
+let read_lines path =
+  let ic = open_in_bin path in
+  let n = in_channel_length ic in
+  let data = really_input_string ic n in
+  close_in ic;
+  let ls = String.split_on_char '\n' data in
+  let ls = (match List.rev ls with "" :: r -> List.rev r | _ -> ls) in
+  (data, ls)
+let bytes_of_str (s : str) : n list = List.init (Str_.length s) (fun i -> n_of_int (Char.code s.[i]))
+let builtin_cache : (str, word_list option outcome) Hashtbl.t = Hashtbl.create 2
+let builtin_list (fname : str) : word_list option outcome =
+  match Hashtbl.find_opt builtin_cache fname with
+  | Some r -> r
+  | None ->
+    let dir = (try Sys.getenv "SPG_LISTS_DIR" with Not_found -> "/repo/testdata") in
+    let (data, ls) = read_lines (Filename.concat dir fname) in
+    let key = Digest.to_hex (Digest.string ("ascii" ^ data ^ Digest.file Sys.executable_name)) in
+    let cdir = (try Sys.getenv "VERIF_CACHE_DIR" with Not_found -> Filename.get_temp_dir_name ()) in
+    let cfile = Filename.concat cdir ("modelrun-list-" ^ key) in
+    let r =
+      if Sys.file_exists cfile then begin
+        let (_, cl) = read_lines cfile in
+        (match cl with
+         | u :: ws -> Done (Some { wlWords = List.map bytes_of_hex ws; wlUncap = nat_of_int (int_of_string u) })
+         | [] -> failwith "bad list cache")
+      end else begin
+        let (o, _) = run_new_word_list_ascii (List.map bytes_of_str ls) in
+        (match o with
+         | Done (Some wl) ->
+             let oc = open_out_bin cfile in
+             output_string oc (string_of_int (int_of_nat wl.wlUncap) ^ "\n");
+             List.iter (fun w -> output_string oc (hex_of_bytes w ^ "\n")) wl.wlWords;
+             close_out oc
+         | _ -> ());
+        o
+      end in
+    Hashtbl.replace builtin_cache fname r; r
+
+let show_action = function
+  | AUsage -> "usage" | AFlagError -> "flagerror" | AHelp -> "help" | AFatal -> "fatal" | AOutside -> "outside"
+  | AChar (_, false) -> "chars" | AChar (_, true) -> "chars-entropy"
+  | AWords (_, false) -> "words" | AWords (_, true) -> "words-entropy"
+
 let run_case fam t =
   match fam with
   | "draw" ->
@@ -248,6 +294,33 @@ let run_case fam t =
                           (match e with None -> "S:1:1" | Some se -> show_entropy se) (int_of_n consumed) d
        | Err e -> Printf.sprintf "err %s consumed=%d %s" (err_name e) (int_of_n consumed) d
        | Panic p -> Printf.sprintf "panic %s consumed=%d %s" (panic_name p) (int_of_n consumed) d)
+  | "cli" ->
+      (* cli <k> <arg>... <f> (<path> <content|!>)... <titles> <source> *)
+      let argv = next_list t next_bytes in
+      let files = next_list t (fun t -> let p = next_bytes t in let c = next t in (p, if c = "!" then None else Some (bytes_of_hex c))) in
+      let title = (match t.rest with
+        | "ascii" :: r -> t.rest <- r; title_ascii
+        | _ -> let (tbl, _) = next_titles t in title_of tbl) in
+      let src = next_source t in
+      let fs p = (match List.assoc_opt p files with Some c -> c | None -> None) in
+      let a = cli_plan fs argv in
+      let needs = (match a with AWords (p, _) -> (match p.wpSource with BuiltinWords -> 1 | BuiltinSyllables -> 2 | FromFile _ -> 0) | _ -> 0) in
+      let aw = if needs = 1 then builtin_list "agwordlist.txt" else Err ENoList in
+      let asyl = if needs = 2 then builtin_list "agsyllables.txt" else Err ENoList in
+      let (o, consumed) = run_cli title aw asyl a src in
+      (match o with
+       | Done out ->
+           let pw = (match out.coPassword with
+             | None -> "-"
+             | Some ts -> show_tokens (List.map (fun tk -> (tk.value, tk.ttype)) ts)) in
+           let ent = (match out.coEntropy with
+             | None -> "-"
+             | Some (Inl e) -> show_entropy e
+             | Some (Inr e) -> show_wl_entropy e) in
+           Printf.sprintf "plan=%s exit=%d pw=%s ent=%s consumed=%d diag=%s" (show_action a) (int_of_n out.coExit) pw ent (int_of_n consumed)
+             (hex_of_bytes (render_stream Stdout (cli_diag a)))
+       | Err e -> Printf.sprintf "plan=%s err %s" (show_action a) (err_name e)
+       | Panic p -> Printf.sprintf "plan=%s panic %s consumed=%d" (show_action a) (panic_name p) (int_of_n consumed))
   | "history" ->
       let (tbl, _) = next_titles t in
       let nobj = next_int t in
